@@ -14,4 +14,5 @@ one() {
   rm -rf "$sc"
 }
 if [ "$1" = "--one" ]; then one "$2"; exit 0; fi
-ls -d /verif/seeded/*${1}*/ | xargs -P "${RECHECK_JOBS:-3}" -n 1 "$0" --one
+# RECHECK_PROPS: optional regular expression over property ids (e.g. 'C0[4-6]|C1[3469]') to restrict the run
+ls -d /verif/seeded/*${1}*/ | grep -E "/(${RECHECK_PROPS:-C[0-9][0-9]})-" | xargs -P "${RECHECK_JOBS:-3}" -n 1 "$0" --one
